@@ -214,12 +214,50 @@ def hist_worker(lines):
 
 
 def replay(case):
+    if 'typeprobe' in case:
+        v = [x for x in check_type_probes() if x[1] == case]
+        return v and v[0][2]
     if 'hist' in case:
         t, steps = case['hist']
         r = replay_history(t, [tuple(s) for s in steps])
     else:
         r = replay_row(case['row'])
     return r and '%s: %s' % r
+
+
+def check_type_probes():
+    """The message type itself: anything but a documented type name must be
+    refused by every entry point (no object may come out)."""
+    import mido
+    out = []
+    bad_types = [0x90, 144.0, 0xf8, 0, 255, None, b'note_on', ('note_on',), 'Note_On', 'note_on ', '', 'sysex\n']
+    for bt in bad_types:
+        for how, f in (('constructor', lambda: mido.Message(bt)),
+                       ('from_dict', lambda: mido.Message.from_dict({'type': bt})),
+                       ('copy', lambda: mido.Message('clock').copy(type=bt))):
+            try:
+                m = f()
+            except Exception:
+                continue
+            out.append(('accepts-invalid/%s/type' % how, {'typeprobe': [how, repr(bt)]},
+                        '%s with type=%r returned %s' % (how, bt, core.srepr(m))))
+    for text in ('clock type=144', 'note_on type=0x90', '144', '0x90 note=1', 'note_on type=note_off'):
+        try:
+            m = mido.Message.from_str(text)
+        except Exception:
+            continue
+        if m.type not in TYPES or text.endswith('type=note_off'):
+            out.append(('accepts-invalid/from_str/type', {'typeprobe': ['from_str', text]},
+                        'from_str(%r) returned %s' % (text, core.srepr(m))))
+    m = mido.Message('note_on')
+    for bt in (0x90, 'note_off', None):
+        try:
+            m.type = bt
+            out.append(('accepts-invalid/setattr/type', {'typeprobe': ['setattr', repr(bt)]},
+                        'assigning type=%r was accepted' % (bt,)))
+        except Exception:
+            pass
+    return out
 
 
 def cfg(types):
@@ -253,9 +291,12 @@ CHECK_DEADLOCK FALSE
                        seed=ctx.seed + 3, workers=8, timeout=1800)
     pr.finish()
     ctx.add_tlc(res, 'MsgObjHist -simulate depth 12')
+    for key, case, msg in check_type_probes():
+        ctx.violation('msgobj/' + key, case, msg)
+    ctx.replayed += 1
     ctx.exhaustive = True
     ctx.assumptions += [
         'bool values (an int subclass) and generators for sysex data are not probed (the statement does not fix them)',
-        'an unknown *type* passed to the constructor is outside this property (C14 decides the text path)',
+        'an unknown or ill-typed *type* must be refused by every entry point with any exception (the class of the exception is left to C14 for text)',
         'ill-typed values are represented by 0.5 / 1.0 (float), "1" (str), None, [1] and [1, "a"]',
     ]
